@@ -258,7 +258,11 @@ func (c *conn) Set(ctx context.Context, r *gpb.SetRequest) (*gpb.SetResponse, er
 	var err error
 	d.SkipLog = false
 	if d.Respond != nil {
-		err = d.Respond(c.target, n)
+		// Respond may pre-empt this invocation with another one that talks to the device as well
+		respond := d.Respond
+		d.mu.Unlock()
+		err = respond(c.target, n)
+		d.mu.Lock()
 	}
 	req.Accepted = err == nil
 	if !d.SkipLog {
